@@ -38,6 +38,7 @@ def tasks(tier):
         if tier != 'quick' or n in (0, 3, 253, 254, 255):
             for kind in (0, 1, 2):
                 ts.append(Task('verifHarness_C01_other_outversion', [n, kind]))
+                ts.append(Task('verifHarness_C01_writeframe_alias', [n, kind]))
     if tier != 'quick':
         # every cut point for a few lengths
         for n in (0, 1, 7):
@@ -49,7 +50,7 @@ def tasks(tier):
 
 
 def required_reach(tier):
-    return ['C01/v1', 'C01/v2', 'C01/refuse', 'C01/v2s', 'C01/v1s', 'C01/ov']
+    return ['C01/v1', 'C01/v2', 'C01/refuse', 'C01/v2s', 'C01/v1s', 'C01/ov', 'C01/wf']
 
 
 def bounds(tier):
@@ -64,6 +65,7 @@ def bounds(tier):
                                  + ('0,1,3,128,255' if tier == 'quick' else '0..255') + ', unsigned and signed',
         'writer_set_to_the_other_version': 'Writer.OutVersion = V1 given v2 / signed v2 frames and OutVersion = V2 given v1 frames: full spec bytes, payload lengths '
                                            + ('0,3,253,254,255' if tier == 'quick' else '0..255'),
+        'deprecated_alias': 'Writer.WriteFrame (alias of Write) on raw v1 / v2 / signed v2 frames at the same payload lengths: the frame\'s own header, checksum and signature block, no dialect needed',
         'dialect': 'none (raw messages); the with-dialect round trip is covered by C02/C08/C09 harnesses',
     }
 
